@@ -7,3 +7,11 @@ Theorem C05_crash_holds : C05_crash. Proof. exact c05_crash. Qed.
 Print Assumptions C05_crash_holds.
 Theorem C05_infinite_holds : C05_infinite. Proof. exact c05_infinite. Qed.
 Print Assumptions C05_infinite_holds.
+(* run-level clauses (Spec/StatementsRun.v) *)
+Require Import Boario.Spec.StatementsRun Boario.Proofs.C16Proofs.
+Theorem C05_nonneg_step_holds : C05_nonneg_step. Proof. exact c05_nonneg_step. Qed.
+Print Assumptions C05_nonneg_step_holds.
+Theorem C05_nonneg_run_holds : C05_nonneg_run. Proof. exact c05_nonneg_run. Qed.
+Print Assumptions C05_nonneg_run_holds.
+Theorem C05_stops_holds : C05_stops. Proof. exact c05_stops. Qed.
+Print Assumptions C05_stops_holds.
